@@ -13,7 +13,7 @@ from vlib import ToolingError, REPO
 
 META = {
     "level": "model_checking",
-    "technique": "TLC evaluates the checker's exported fact list (hook H1), asserts and loop conditions in every reachable state of every accepted program under WuffsCore.tla; axioms.md is translated to TLA+ and checked by TLC (small box) and Apalache (all integers)",
+    "technique": "TLC evaluates the checker's exported fact list (hook H1), asserts and loop conditions in every reachable state of every accepted program under WuffsCore.tla; axioms.md is translated to TLA+ and checked by TLC (small box), proved for all integers by the TLA+ proof system (tlapm) and, in the thorough tier, by Apalache",
     "text": "Every fact the checker holds at a statement is an invariant of that program point in the model: TLC visits all executions of the bounded domain (inputs, histories, suspension schedules) and evaluates each fact with ideal integers whenever the statement is reached. The 20 axioms are checked as integer theorems independently of the code that applies them.",
     "note": "Trusted: the TLA+ semantics, the H1 hook (a one-line observer), TLC/Apalache. Facts using constructs outside the interpreted fragment are counted as uninterpreted and not claimed.",
 }
@@ -105,6 +105,37 @@ def check_axioms(ctx):
                 else:
                     apa["note"] += " axiom %d: unexpected apalache output;" % (i + 1)
     check_axioms.apalache = apa
+    # every tier: an independent PROOF over all integers by the TLA+ proof system (tlapm; SMT / Zenon / Isabelle back
+    # ends): one theorem per axiom, `\\A vars \\in Int : premises => conclusion`, OBVIOUS.  A failed proof is not a
+    # refutation (TLC's box and Apalache refute); it is recorded and, if TLC found nothing either, left inconclusive.
+    tl = {"ran": False, "obligations": 0, "proved": 0, "note": ""}
+    import shutil as _sh2, subprocess as _sp2
+    if _sh2.which("tlapm") is None:
+        tl["note"] = "tlapm not found"
+    else:
+        d = ctx.subdir("tlapm")
+        L = ["---- MODULE AxiomsProof ----", "EXTENDS Integers"]
+        for i, (body, c, ps) in enumerate(axs):
+            vs = sorted(set(re.findall(r"\b[a-z][0-9]?\b", c + " " + " ".join(ps))))
+            prem = " /\\ ".join("(%s)" % tla_expr(p) for p in ps) if ps else "TRUE"
+            L += ["\\* %s" % body, "THEOREM Ax%02d == \\A %s \\in Int : (%s) => (%s)" % (i + 1, ", ".join(vs), prem, tla_expr(c)), "OBVIOUS"]
+        L.append("====")
+        open(os.path.join(d, "AxiomsProof.tla"), "w").write("\n".join(L) + "\n")
+        try:
+            r = _sp2.run(["tlapm", "--threads", "8", "AxiomsProof.tla"], capture_output=True, text=True, timeout=900, cwd=d)
+            out = r.stdout + r.stderr
+            tl["ran"] = True
+            tl["obligations"] = len(axs)
+            m = re.search(r"All (\d+) obligations? proved", out)
+            if m:
+                tl["proved"] = int(m.group(1))
+            else:
+                m2 = re.search(r"(\d+)/(\d+) obligations? failed", out)
+                tl["proved"] = (int(m2.group(2)) - int(m2.group(1))) if m2 else 0
+                tl["note"] = "tlapm did not prove every axiom: " + out[-600:].replace("\n", " | ")
+        except _sp2.TimeoutExpired:
+            tl["note"] = "tlapm timed out"
+    check_axioms.tlapm = tl
     return axs, results, text
 
 
@@ -125,6 +156,7 @@ def run(ctx):
     cov["axioms_checked"] = len(results)
     cov["axioms"] = [r[0] for r in results]
     cov["axioms_apalache_all_integers"] = getattr(check_axioms, "apalache", {})
+    cov["axioms_tlapm_proof_all_integers"] = getattr(check_axioms, "tlapm", {})
     cov["samples"] = [{"program": p["name"], "origin": p["origin"],
                        "facts": [wcorepipe.describe_node(p, f) for n in p["nodes"] if n.get("hf") for f in n["fx"]][:8]} for p in b.progs[:5]]
     cov["model_violations_found"] = len(viols)
